@@ -1,6 +1,7 @@
 import SimilarVerif.Lemmas.Walk
 import SimilarVerif.Lemmas.Replace
 import SimilarVerif.Model.Common
+import SimilarVerif.Lemmas.Capture
 /-!
 # C02 — captured ops form a valid edit script old → new; ratio in [0,1], 1 iff equal
 
@@ -78,5 +79,23 @@ theorem replace_capture_valid (e : Nat → Nat → Bool) (ops : List Op) (o n o'
 /-- non-vacuity -/
 example : Walk (fun i j => i + (if 2 < j then 1 else 0) == j) 0 0 [.equal 0 0 2, .replace 2 1 2 2, .equal 3 4 1] 4 5 := by
   simp [Walk]; intro t ht; omega
+
+end SimilarVerif.C02
+
+namespace SimilarVerif.C02
+open SimilarVerif Spec
+
+/-- **the capture pipeline factorises** into raw stream → clean-up → Replace → Capture -/
+theorem capture_is_pipeline : type_of% @CaptureP.capture_factor := @CaptureP.capture_factor
+
+/-- **end to end, LCS** (unconditional in the inputs; every clock): whatever `capture_diff_deadline`
+returns is a valid op list for the two ranges, with the item counts of the raw stream, alternating -/
+theorem capture_lcs_valid : type_of% @CaptureP.capture_lcs_valid := @CaptureP.capture_lcs_valid
+
+/-- end to end, Myers (relative to `SnakeInBox`) -/
+theorem capture_myers_valid : type_of% @CaptureP.capture_myers_valid := @CaptureP.capture_myers_valid
+
+/-- end to end, Patience (relative to `SnakeInBox` for the sequences and the unique lists) -/
+theorem capture_patience_valid : type_of% @CaptureP.capture_patience_valid := @CaptureP.capture_patience_valid
 
 end SimilarVerif.C02
